@@ -213,7 +213,8 @@ namespace MlModel.Tree
 
 /-- The key path `p` **exists** below `t` as far as a set needs it: every key but the last addresses a stored
 child (dict entry / sequence position) — so `_default_tree` is never asked to build structure for a key —
-the last key may be fresh (a new dict key, the append index), and whatever follows `SELF` / `SKIP` is ignored. -/
+the last key may be fresh (a new dict key, the append index), whatever follows `SELF` / `SKIP` is ignored, and
+so is whatever lies below an ndarray (existing or not: nothing is ever built inside an array). -/
 inductive Ex (h : Heap) : Ref → Path → Prop
   | nil (t : Ref) : Ex h t []
   | self (t : Ref) (ks : Path) : Ex h t (.self :: ks)
@@ -221,6 +222,7 @@ inductive Ex (h : Heap) : Ref → Path → Prop
   | last {t : Ref} {n : Node} (k : PKey) : h[t]? = some n → n ≠ .null → Ex h t [k]
   | step {t : Ref} {n : Node} {k : PKey} {c : Ref} {ks : Path} : h[t]? = some n → n.slotGet k = .ok c →
       Ex h c ks → Ex h t (k :: ks)
+  | nd {t b off : Ref} {shape : List Nat} (k : PKey) (ks : Path) : h[t]? = some (.nd b off shape) → Ex h t (k :: ks)
 
 theorem Ex.mono {h h' : Heap} (e : ∀ (r : Nat) (n : Node), h[r]? = some n → h'[r]? = some n) {t : Ref} {p : Path} (x : Ex h t p) :
     Ex h' t p := by
@@ -230,6 +232,7 @@ theorem Ex.mono {h h' : Heap} (e : ∀ (r : Nat) (n : Node), h[r]? = some n → 
   | skip t ks => exact .skip t ks
   | last k hn hne => exact .last k (e _ _ hn) hne
   | step hn hs _ ih => exact .step (e _ _ hn) hs ih
+  | nd k ks hn => exact .nd k ks (e _ _ hn)
 
 theorem push_mono (h : Heap) (m : Node) : ∀ (r : Nat) (n : Node), h[r]? = some n → (h.push m)[r]? = some n := by
   intro r n hn
@@ -267,14 +270,58 @@ end MlModel.Tree
 
 namespace MlModel.Tree
 
+/-- Below an ndarray (or a scalar read from one) the flavour never matters, whether or not the path exists:
+no `_default_tree` is ever built inside an array. -/
+theorem setPath_flav_nd (strict ip : Bool) (v : Ref) : ∀ (p : Path) (h : Heap) (t : Ref),
+    ((∃ x, h[t]? = some (.leaf x)) ∨ ∃ b off shape, h[t]? = some (.nd b off shape)) →
+    setPath strict ip h t (p.map PKey.flav) v = setPath strict ip h t p v := by
+  intro p
+  induction p with
+  | nil => intro h t _; rfl
+  | cons k ks ih =>
+    intro h t ht
+    by_cases hk1 : k = .self
+    · subst hk1; rfl
+    by_cases hk2 : k = .skip
+    · subst hk2; rfl
+    rw [List.map_cons, setPath.eq_4 _ _ _ _ _ _ _ (PKey.flav_ne_self hk1) (PKey.flav_ne_skip hk2),
+      setPath.eq_4 _ _ _ _ _ _ _ hk1 hk2]
+    rcases ht with ⟨x, hn⟩ | ⟨b, off, shape, hn⟩
+    · rw [hn]
+    · rw [hn]
+      dsimp only
+      rw [setNd_unfold, setNd_unfold, PKey.flav_asInt]
+      cases shape with
+      | nil => rfl
+      | cons n inner =>
+        dsimp only
+        cases k.asInt with
+        | none => rfl
+        | some i =>
+          dsimp only
+          split
+          · rfl
+          · cases resolveIdx n i with
+            | none => rfl
+            | some j =>
+              dsimp only
+              obtain ⟨m, h1, h2, hm⟩ := ndItem_fst (ndPre ip h t b off (n :: inner)).1
+                (ndPre ip h t b off (n :: inner)).2.2.1 ((ndPre ip h t b off (n :: inner)).2.2.2 + j * prod inner) inner
+              rw [ih _ _ ?_]
+              rw [h1, h2]
+              rcases hm with ⟨rfl, _⟩ | ⟨rfl, _⟩
+              · exact Or.inl ⟨_, push_get_size _ _⟩
+              · exact Or.inr ⟨_, _, _, push_get_size _ _⟩
+
 theorem Ex.cons_cases {h : Heap} {t : Ref} {k : PKey} {ks : Path} (x : Ex h t (k :: ks)) :
     k = .self ∨ k = .skip ∨ (ks = [] ∧ ∃ n, h[t]? = some n ∧ n ≠ .null) ∨
-      ∃ n c, h[t]? = some n ∧ n.slotGet k = .ok c ∧ Ex h c ks := by
+      (∃ n c, h[t]? = some n ∧ n.slotGet k = .ok c ∧ Ex h c ks) ∨ ∃ b off shape, h[t]? = some (.nd b off shape) := by
   cases x with
   | self => exact Or.inl rfl
   | skip => exact Or.inr (Or.inl rfl)
   | last _ hn hne => exact Or.inr (Or.inr (Or.inl ⟨rfl, _, hn, hne⟩))
-  | step hn hs hx => exact Or.inr (Or.inr (Or.inr ⟨_, _, hn, hs, hx⟩))
+  | step hn hs hx => exact Or.inr (Or.inr (Or.inr (Or.inl ⟨_, _, hn, hs, hx⟩)))
+  | nd _ _ hn => exact Or.inr (Or.inr (Or.inr (Or.inr ⟨_, _, _, hn⟩)))
 
 /-- **On a path that exists, `_set_by_path` cannot tell `Index(i)` from `i`** — copying or in place, strict or
 not, on every heap: same resulting heap, same result (or same error). -/
@@ -285,10 +332,12 @@ theorem setPath_flav (strict ip : Bool) (v : Ref) : ∀ (p : Path) (h : Heap) (t
   | nil => intro h t _; rfl
   | cons k ks ih =>
     intro h t x
-    rcases x.cons_cases with rfl | rfl | ⟨rfl, n, hn, hne⟩ | ⟨n, c, hn, hs, hx⟩
+    rcases x.cons_cases with rfl | rfl | ⟨rfl, n, hn, hne⟩ | ⟨n, c, hn, hs, hx⟩ | ⟨b, off, shape, hn⟩
     · rfl
     · rfl
     · exact setPath_flav_last strict ip k v hn hne
+    rotate_left
+    · exact setPath_flav_nd strict ip v (k :: ks) h t (Or.inr ⟨b, off, shape, hn⟩)
     · by_cases hk1 : k = .self
       · subst hk1; rfl
       by_cases hk2 : k = .skip
@@ -382,6 +431,9 @@ theorem Ex.congr {h : Heap} {t : Ref} {p : Path} (x : Ex h t p) :
       have hs' : n.slotGet k' = .ok c := by
         rw [← Node.slotGet_flav n k', e.1, Node.slotGet_flav]; exact hs
       exact .step hn hs' (ih qs e.2)
+  | nd k ks hn => intro q e; cases q with
+    | nil => simp at e
+    | cons k' qs => exact .nd k' qs hn
 
 /-- Two spellings of a path that exists — any `Index(i)` written `i` or the other way round — set the same. -/
 theorem setPath_congr_flav (strict ip : Bool) (v : Ref) {h : Heap} {t : Ref} {p q : Path} (x : Ex h t p)
@@ -408,5 +460,12 @@ theorem Ex.of_get {h : Heap} : ∀ (p : Path) (t x : Ref), PlainSelf p → get h
       cases hn : h[t]? with
       | none => rw [hn] at hi; cases hi
       | some n => rw [hn] at hi; exact .step hn hi (ih c x hpl.2 hg)
+
+/-- a leaf walk (what `items()` lists) exists -/
+theorem Ex.of_leafWalk {h : Heap} (hg : GoodDicts h) {r : Ref} {q : Path} {x : Ref} (w : LeafWalk h r q x) :
+    Ex h r q := by
+  induction w with
+  | leaf _ _ => exact .nil _
+  | step hn hm _ ih => exact .step hn (children_slotGet hg hn hm).1 ih
 
 end MlModel.Tree
